@@ -5,6 +5,8 @@ package receiver
 import (
 	"io/fs"
 	"os"
+
+	"github.com/gokrazy/rsync"
 	"os/user"
 	"strconv"
 	"syscall"
@@ -59,4 +61,19 @@ func (rt *Transfer) setUid(f *File, st fs.FileInfo) (fs.FileInfo, error) {
 		return nil, err
 	}
 	return rt.DestRoot.Lstat(f.Name)
+}
+
+// sameDevice reports whether the existing entry st already is the device
+// or special file that f describes (same type and, for devices, the same
+// major/minor numbers).
+func sameDevice(f *File, st fs.FileInfo) bool {
+	stt := st.Sys().(*syscall.Stat_t)
+	if uint32(stt.Mode)&rsync.S_IFMT != uint32(f.Mode)&rsync.S_IFMT {
+		return false
+	}
+	switch f.Mode & rsync.S_IFMT {
+	case rsync.S_IFCHR, rsync.S_IFBLK:
+		return uint64(stt.Rdev) == uint64(uint32(f.Rdev))
+	}
+	return true
 }
